@@ -544,7 +544,7 @@ async fn peer_writer(
                     WCmd::Fin => { let _ = send.finish(); }
                     WCmd::Reset(code) => { let _ = send.reset(VarInt::from_u64(code).unwrap()); }
                     WCmd::Stopped(tx) => {
-                        let r = match tokio::time::timeout(Duration::from_secs(5), send.stopped()).await {
+                        let r = match tokio::time::timeout(STOPPED_TIMEOUT, send.stopped()).await {
                             Err(_) => "timeout".to_string(),
                             Ok(Ok(Some(c))) => format!("{}", c.into_inner()),
                             Ok(Ok(None)) => "none".into(),
@@ -579,7 +579,7 @@ async fn peer_reader(mut recv: quinn::RecvStream, mut rx: mpsc::UnboundedReceive
             },
             r = recv.read_chunk(usize::MAX, true), if reading => {
                 let done = match r {
-                    Ok(Some(c)) => { h.feed(&c.bytes); None }
+                    Ok(Some(c)) => { h.feed(&c.bytes); progressed(); None }
                     Ok(None) => Some(format!("{}:fin", h.show())),
                     Err(quinn::ReadError::Reset(c)) => Some(format!("reset:{}", c.into_inner())),
                     Err(quinn::ReadError::ConnectionLost(e)) => Some(format!("lost:{}", raw_conn_err(&e))),
@@ -637,6 +637,39 @@ fn data_res(r: Poll<Result<Option<Bytes>, StreamErrorIncoming>>, h: &mut Hash) -
 }
 
 const OP_TIMEOUT: Duration = Duration::from_secs(5);
+/// ... but an operation that MOVES BYTES is given up only when nothing has moved for `OP_TIMEOUT` (or after `OP_MAX`
+/// in all): 64 KiB through a one-byte window are 65 536 round trips, two seconds on an idle machine and more than
+/// five on one that other builds keep busy.  An operation that is stuck (the symptom of a broken adapter) still
+/// ends after `OP_TIMEOUT`.
+const OP_MAX: Duration = Duration::from_secs(60);
+static PROGRESS: std::sync::atomic::AtomicU64 = std::sync::atomic::AtomicU64::new(0);
+
+/// bytes have moved (the raw peer read a chunk / the adapter side read a chunk / Quinn accepted bytes)
+fn progressed() {
+    PROGRESS.fetch_add(1, std::sync::atomic::Ordering::Relaxed);
+}
+
+/// `tokio::time::timeout(OP_TIMEOUT, f)` whose clock starts again while bytes are moving
+async fn moving<F: std::future::Future>(f: F) -> Result<F::Output, ()> {
+    tokio::pin!(f);
+    let t0 = tokio::time::Instant::now();
+    loop {
+        let seen = PROGRESS.load(std::sync::atomic::Ordering::Relaxed);
+        match tokio::time::timeout(OP_TIMEOUT, &mut f).await {
+            Ok(x) => return Ok(x),
+            Err(_) => {
+                if PROGRESS.load(std::sync::atomic::Ordering::Relaxed) == seen || t0.elapsed() > OP_MAX {
+                    return Err(());
+                }
+            }
+        }
+    }
+}
+/// How long the raw peer's writer waits to be told to stop (`pstopped`).  A STOP_SENDING that was sent crosses the
+/// loopback in well under a millisecond; one that was not sent never comes, and the specification now calls that a
+/// failure (reading R-17), so a broken adapter makes MANY cases wait this long: keep it well below `OP_TIMEOUT`.
+/// (A stall of the machine longer than this gives `pstopped=timeout`, and the case is run a second time.)
+const STOPPED_TIMEOUT: Duration = Duration::from_secs(2);
 
 type PTasks = Arc<std::sync::Mutex<Vec<tokio::task::AbortHandle>>>;
 
@@ -919,7 +952,7 @@ async fn scenario(cfg: Cfg, ops: Vec<String>) -> String {
                     }) => format!("{}=refused", p[0]),
                     Err(e) => format!("{}=err:{}", p[0], stream_err(&e)),
                     Ok(()) if p[0] == "sd" => "sd=ok".into(),
-                    Ok(()) => match tokio::time::timeout(OP_TIMEOUT, poll_fn(|cx| s.poll_ready(cx))).await {
+                    Ok(()) => match moving(poll_fn(|cx| s.poll_ready(cx))).await {
                         Err(_) => "w=timeout".into(),
                         Ok(r) => format!("w={}", poll_res(Poll::Ready(r))),
                     },
@@ -929,7 +962,7 @@ async fn scenario(cfg: Cfg, ops: Vec<String>) -> String {
                 let r = with_send!(s => poll_fn(|cx| Poll::Ready(s.poll_ready(cx))).await);
                 format!("pr1={}", poll_res(r))
             }
-            "pr" => with_send!(s => match tokio::time::timeout(OP_TIMEOUT, poll_fn(|cx| s.poll_ready(cx))).await {
+            "pr" => with_send!(s => match moving(poll_fn(|cx| s.poll_ready(cx))).await {
                 Err(_) => "pr=timeout".into(),
                 Ok(r) => format!("pr={}", poll_res(Poll::Ready(r))),
             }),
@@ -960,7 +993,9 @@ async fn scenario(cfg: Cfg, ops: Vec<String>) -> String {
                 let all = p[0] == "psall";
                 let once = p[0] == "ps1";
                 let mut res: Option<String> = None;
-                let t0 = tokio::time::Instant::now();
+                // the whole loop has `OP_TIMEOUT`, counted from the last poll_send that was given bytes
+                let t00 = tokio::time::Instant::now();
+                let mut t0 = t00;
                 loop {
                     if all && !buf.has_remaining() {
                         break;
@@ -985,6 +1020,9 @@ async fn scenario(cfg: Cfg, ops: Vec<String>) -> String {
                         Ok(Ok(Some(Err(e)))) => res = Some(format!("err:{}", stream_err(&e))),
                         Ok(Ok(Some(Ok(k)))) => {
                             // the Buf must have been advanced by exactly what was reported
+                            if k > 0 && t00.elapsed() < OP_MAX {
+                                t0 = tokio::time::Instant::now();
+                            }
                             if before - buf.remaining() != k {
                                 res = Some(format!("misadvanced:{}:{}", k, before - buf.remaining()));
                             } else if !all {
@@ -1023,10 +1061,10 @@ async fn scenario(cfg: Cfg, ops: Vec<String>) -> String {
                 Ok(x) => format!("pd={}", data_res(Poll::Ready(x), &mut rhash)),
             }),
             "rdall" => {
-                let res = with_recv!(r => tokio::time::timeout(OP_TIMEOUT, async {
+                let res = with_recv!(r => moving(async {
                     loop {
                         match poll_fn(|cx| r.poll_data(cx)).await {
-                            Ok(Some(b)) => rhash.feed(&b),
+                            Ok(Some(b)) => { rhash.feed(&b); progressed() }
                             Ok(None) => break format!("{}:end", rhash.show()),
                             Err(e) => break format!("err:{}", stream_err(&e)),
                         }
@@ -1254,7 +1292,7 @@ async fn scenario(cfg: Cfg, ops: Vec<String>) -> String {
             }
             "pjoin" => match peer.result.take() {
                 None => "peer=none".into(),
-                Some(rx) => match tokio::time::timeout(OP_TIMEOUT, rx).await {
+                Some(rx) => match moving(rx).await {
                     Ok(Ok(s)) => format!("peer={}", s),
                     Ok(Err(_)) => "peer=gone".into(),
                     Err(_) => "peer=timeout".into(),
@@ -1464,9 +1502,20 @@ fn attempt(w: &[&str]) -> String {
     guarded(|| {
         let rt = tokio::runtime::Builder::new_current_thread().enable_all().build().unwrap();
         let r = rt.block_on(async {
-            match tokio::time::timeout(Duration::from_secs(15), scenario(cfg, ops)).await {
-                Ok(s) => s,
-                Err(_) => "timeout".into(),
+            // 15 s per case, counted again while bytes are moving (at most 90 s in all)
+            let sc = scenario(cfg, ops);
+            tokio::pin!(sc);
+            let t0 = tokio::time::Instant::now();
+            loop {
+                let seen = PROGRESS.load(std::sync::atomic::Ordering::Relaxed);
+                match tokio::time::timeout(Duration::from_secs(15), &mut sc).await {
+                    Ok(s) => break s,
+                    Err(_) => {
+                        if PROGRESS.load(std::sync::atomic::Ordering::Relaxed) == seen || t0.elapsed() > Duration::from_secs(90) {
+                            break "timeout".into();
+                        }
+                    }
+                }
             }
         });
         rt.shutdown_timeout(Duration::from_millis(100));
